@@ -1,0 +1,59 @@
+// Copyright 2021 CloudWeGo Authors
+//
+// Licensed under the Apache License, Version 2.0 (the "License");
+// you may not use this file except in compliance with the License.
+// You may obtain a copy of the License at
+//
+//   http://www.apache.org/licenses/LICENSE-2.0
+//
+// Unless required by applicable law or agreed to in writing, software
+// distributed under the License is distributed on an "AS IS" BASIS,
+// WITHOUT WARRANTIES OR CONDITIONS OF ANY KIND, either express or implied.
+// See the License for the specific language governing permissions and
+// limitations under the License.
+
+//go:build verif
+
+package generator
+
+import (
+	"github.com/cloudwego/thriftgo/generator/backend"
+	"github.com/cloudwego/thriftgo/plugin"
+)
+
+// VerifHook, when set, is called at every trace point of
+// asyncPostProcess.OnFinished with the name of the trace point and the index
+// of the job it belongs to. It runs on the goroutine that reached the trace
+// point and may block (to force a schedule). Events that announce an
+// operation which enables other goroutines ("err-send", "done", "release")
+// are emitted before that operation; events that report an operation which
+// other goroutines enable ("acquire", "recv-err", "final-wait", "return"
+// after a Wait) are emitted after it.
+//
+// This file is compiled only with `-tags verif`.
+var VerifHook func(ev string, job int)
+
+func verifEvent(ev string, job int) {
+	if h := VerifHook; h != nil {
+		h(ev, job)
+	}
+}
+
+// VerifOnFinished runs the unexported asyncPostProcess machinery used by
+// Generator.Persist on the given jobs (path, content) with the given
+// post-processor (may be nil), concurrency limit and write callback.
+func VerifOnFinished(pp backend.PostProcessor, concurrency int, jobs [][2]string, write func(path string, content []byte) error) error {
+	p := newAsyncPostProcess(pp)
+	p.concurrency = concurrency
+	for _, j := range jobs {
+		p.Add(j[0], j[1])
+	}
+	return p.OnFinished(write)
+}
+
+// VerifPersist runs Generator.Persist with the given post-processor (may be
+// nil) and logger, without running Generate first.
+func VerifPersist(pp backend.PostProcessor, log backend.LogFunc, res *plugin.Response) error {
+	g := &Generator{pp: pp, log: log}
+	return g.Persist(res)
+}
